@@ -207,6 +207,31 @@ func newExecutor() *kmipserver.BatchExecutor {
 	if os.Getenv("VERIF_RETRY") == "1" {
 		// an application's item middleware that tries a failed item once more
 		ex.BatchItemUse(func(next kmipserver.BatchItemNext, ctx context.Context, bi *kmip.RequestBatchItem) (*kmip.ResponseBatchItem, error) {
+			// ... and that answers an item it denies itself: a failed item, no error, the continuation not called
+			if sc, _ := ctx.Value(scriptKey{}).(*script); sc != nil {
+				i := 0
+				if sc.byType {
+					switch bi.RequestPayload.(type) {
+					case *payloads.GetRequestPayload:
+						i = 1
+					case *payloads.ActivateRequestPayload:
+						i = 2
+					case *payloads.DestroyRequestPayload:
+						i = 3
+					case *payloads.RevokeRequestPayload:
+						i = 4
+					case *payloads.GetAttributeListRequestPayload:
+						i = 5
+					}
+				} else if pl, ok := bi.RequestPayload.(*payloads.GetRequestPayload); ok {
+					var rid int
+					_, _ = fmt.Sscanf(pl.UniqueIdentifier, "r%d.i%d", &rid, &i)
+				}
+				if i >= 1 && i <= len(sc.items) && sc.items[i-1].Out == "deniedByStage" {
+					return &kmip.ResponseBatchItem{Operation: bi.Operation, UniqueBatchItemID: bi.UniqueBatchItemID, ResultStatus: kmip.ResultStatusOperationFailed,
+						ResultReason: kmip.ResultReasonPermissionDenied, ResultMessage: "denied by policy"}, nil
+				}
+			}
 			resp, err := next(ctx, bi)
 			if err != nil {
 				return next(ctx, bi)
@@ -356,6 +381,7 @@ var reasonNames = map[kmip.ResultReason]string{
 	kmip.ResultReasonFeatureNotSupported:          "FeatureNotSupported",
 	kmip.ResultReasonOperationCanceledByRequester: "OperationCanceledByRequester",
 	kmip.ResultReasonInvalidMessage:               "InvalidMessage",
+	kmip.ResultReasonPermissionDenied:             "PermissionDenied",
 	0:                                             "none",
 }
 
